@@ -66,7 +66,10 @@ type Seq struct {
 	bulkHooks   bool // several chunks: file mutations of earlier chunks precede later hooks
 	Hooks       Hooks
 	KnownSample map[string]string
-	NoReopen    bool              // differential attribution for C04: restarts become no-ops
+	NoReopen    bool // differential attribution for C04: restarts become no-ops
+	small       *smallModel
+	smallAsync  bool              // async setting of the second collection (it has its own schema)
+	smallDirty  bool              // the second collection may have pending async writes
 	Loose       map[string]string // outcomes the model leaves open, keyed by call (compared across configurations by C12)
 }
 
@@ -198,8 +201,11 @@ func (s *Seq) Open(create bool) {
 		if err := s.db.Create(rec0(), s.Cfg.Schema()); err != nil {
 			s.fail("read", "create-failed", "Create failed: %v", err)
 		}
+		s.smallOpen()
 	}
 }
+
+func msDur(ms int64) time.Duration { return time.Duration(ms) * time.Millisecond }
 
 // Run executes the history as the main task of the world.
 func (s *Seq) Run() {
@@ -291,7 +297,9 @@ func (s *Seq) exec(op *Op) {
 			s.reopen(true, op.Flag)
 		}
 	case "abandon":
-		if !s.Cfg.Async && !s.NoReopen {
+		// dropping a handle is a crash at an operation boundary; only without any
+		// flusher on it (a surviving flusher would be a second writer on the directory)
+		if !s.Cfg.Async && !s.smallAsync && !s.NoReopen {
 			s.reopen(false, op.Flag)
 		}
 	case "flush":
@@ -302,6 +310,8 @@ func (s *Seq) exec(op *Op) {
 		s.opCreate(op)
 	case "await":
 		s.opAwait(op)
+	case "small":
+		s.opSmall()
 	}
 	if s.Prof.AsyncOracles && s.Cfg.Async {
 		s.checkNoGhostFiles("after-" + op.K)
@@ -522,6 +532,10 @@ func (s *Seq) opFlush(op *Op) {
 		err = s.db.FlushAll(rec0())
 	case "allcommit":
 		err = s.db.FlushAllAndCommit(rec0())
+		if err == nil && s.smallDirty {
+			err = s.db.FlushAllAndCommit(small0())
+			s.smallDirty = err != nil
+		}
 		if err == nil {
 			s.quiescent = true
 		}
@@ -594,17 +608,26 @@ func (s *Seq) reopen(closeFirst bool, create bool) {
 		s.stat("abandon-reopen")
 	}
 	s.quiescent = true
+	s.smallDirty = false
 	s.checkLayout("after-close")
+	s.smallLayout("after-close")
 	s.held = map[int]*heldSearch{}
 	s.db = sod.Open(s.Root)
 	if create {
 		if err := s.db.Create(rec0(), s.Cfg.Schema()); err != nil {
 			s.fail("reopen", "create-after-reopen-failed", "Create after reopen failed: %v", err)
 		}
+		if s.small != nil {
+			if err := s.db.Create(small0(), s.smallSchema()); err != nil {
+				s.fail("reopen", "create-after-reopen-failed", "Create of the second collection after reopen failed: %v", err)
+			}
+			s.smallAsync = s.Cfg.Async
+		}
 	}
 	s.sinceReopen = 0
 	s.rejected = false
 	s.runPlan(plan, "reopen", "after-reopen")
+	s.smallSweep("reopen", "after-reopen")
 	for _, p := range s.M.ConsPaths() {
 		if s.M.Cons[p].Indexed() {
 			for _, l := range s.M.Lids() {
